@@ -78,6 +78,10 @@ def r1(rr, repo):
             continue
         n += 1
         T = o[1].args[0]
+        # the listed timestamp may be the raw one or the one the name encodes (int(ts * 1_000_000) / 1_000_000): same microsecond either way
+        if isinstance(T, ast.BinOp) and isinstance(T.op, ast.Div) and isinstance(T.left, ast.Call) and U(T.left.func) == 'int' and T.left.args and isinstance(T.left.args[0], ast.BinOp) \
+                and isinstance(T.left.args[0].op, ast.Mult) and U(T.left.args[0].right) == U(T.right):
+            T = T.left.args[0].left
         names = [c for c in ast.walk(o[1]) if isinstance(c, ast.Call) and U(c.func) == 'fnm_from_dats']
         same = bool(names) and len(names[0].args) > 1 and U(names[0].args[1]) == U(T)
         empty = p.facts.get('truthy(self.logfiles)') is False
@@ -85,9 +89,14 @@ def r1(rr, repo):
         for k, v in p.pc:
             if k.startswith('ord(') and 'self.logfiles[-1].timestamp' in k:
                 inner = k[4:-1]
-                if name_res and not all(part.strip().startswith(name_res[0]) and name_res[1] in part for part in _split_top(inner)):
+                def at_name_resolution(part):
+                    part = part.strip()
+                    if 'self.logfiles[-1].timestamp' in part:   # the newest file's listed timestamp: truncation or rounding recovers its microsecond count
+                        return part.startswith((name_res[0], 'round(')) and name_res[1] in part
+                    return part.startswith(name_res[0]) and name_res[1] in part      # the new timestamp: exactly the truncation the name uses
+                if name_res and not all(at_name_resolution(part) for part in _split_top(inner)):
                     coarse.append(k)   # compared at another resolution than the one the file name is built from
-                first_is_last = inner.startswith('int(self.logfiles[-1].timestamp') or inner.startswith('self.logfiles[-1].timestamp')
+                first_is_last = inner.startswith(('int(self.logfiles[-1].timestamp', 'round(self.logfiles[-1].timestamp', 'self.logfiles[-1].timestamp'))
                 rel_new_vs_last = ({'<': '>', '>': '<', '=': '='}[v]) if first_is_last else v
                 above = rel_new_vs_last == '>'
         bumped = 'self.logfiles[-1].timestamp' in U(T) and any(isinstance(b, ast.BinOp) and isinstance(b.op, ast.Add) and any(isinstance(c, ast.Constant) and isinstance(c.value, (int, float)) and c.value > 0 for c in (b.left, b.right)) for b in ast.walk(T))
@@ -654,6 +663,22 @@ def r8(rr, repo):
     stp = {U(t): U(n.value) for n in ast.walk(init) if isinstance(n, ast.Assign) for t in n.targets}
     okp = okp and stp.get('self.prefix', '').startswith('prefix = ') is False and 'self.prefix' in stp and 'self.suffix' in stp
     rr.ob('writer and scanner use the same (fixed-up) prefix and suffix', okp, mod, pat[0], witness=f'escaped={escaped}', key='same-affixes')
+    # 2b. the writer lists a new file under exactly the timestamp its name encodes (what scan / seek recover from the name): a raw float that
+    #     differs from it by a fraction of a microsecond makes seek(tell()) treat the reader's own file as "newer" and start it again
+    rets = [n for n in ast.walk(newf) if isinstance(n, ast.Return) and isinstance(n.value, ast.Call) and U(n.value.func) == 'RollLogFile' and n.value.args]
+    rr.floor('RollLogFile results of new_logfile', len(rets), 1, mod, newf)
+    for r_ in rets:
+        a0 = r_.value.args[0]
+        nm = [c for c in ast.walk(r_.value) if isinstance(c, ast.Call) and U(c.func) == lam[0].targets[0].id]
+        tsarg = U(nm[0].args[1]) if nm and len(nm[0].args) > 1 else None
+        canon = tsarg is not None and re.sub(r'[_\s]', '', U(a0)) == re.sub(r'[_\s]', '', f'int({tsarg} * 1000000) / 1000000')
+        if canon:
+            rr.holds('a new file is listed under the timestamp its name encodes (int(ts * 1 000 000) / 1 000 000)', mod, r_, witness=U(a0), key='listed-as-named')
+        elif tsarg is not None and U(a0) == tsarg:
+            rr.violated('a new file is listed under the raw timestamp while its name (and so every scan, tell and seek) carries the truncated microseconds: seek(tell()) on the writer\'s own log '
+                        'compares the two, finds the file "newer" than its own name and delivers it again from the start', mod, r_, witness=f'listed: {U(a0)}  named from: {tsarg}', key='listed-as-named')
+        else:
+            rr.unresolved('new_logfile lists the file under a timestamp whose relation to the name is not recognised', mod, r_, witness=U(a0)[:100], key='listed-as-named')
     # 3. inverse scaling
     ts = [c for c in ast.walk(scan) if isinstance(c, ast.Call) and U(c.func) == 'RollLogFile']
     rr.floor('RollLogFile constructions in scan_logfiles', len(ts), 1, mod, scan)
@@ -676,3 +701,10 @@ def r8(rr, repo):
     acc = [n for n in ast.walk(scan) if (isinstance(n, ast.AugAssign) and isinstance(n.op, ast.Add) and U(n.target) == tot) or
            (isinstance(n, ast.Assign) and len(n.targets) == 1 and U(n.targets[0]) == tot and isinstance(n.value, ast.BinOp) and isinstance(n.value.op, ast.Add) and tot in (U(n.value.left), U(n.value.right)))]
     rr.ob('the running total is the sum of the listed sizes', bool(acc), mod, scan, key='scan-total')
+
+
+@rule('C13.R9', 'a position taken with tell() names the next unread byte, so seek(tell()) and a restart from the head file deliver nothing twice: current file and its own offset inside the list, '
+                'last file and its size past the end (shares C14.R6)')
+def r9(rr, repo):
+    from .c14 import r6 as c14r6
+    c14r6(rr, repo)
